@@ -101,6 +101,9 @@ pub mod asm {
         use vstd::arithmetic::power2::pow2;
         verus! {
         broadcast use {crate::num_bigint::axiom_into_refl_obeys, crate::num_bigint::axiom_into_refl, crate::util::axiom_bigint_into_refl_obeys, crate::util::axiom_bigint_into_refl, crate::std_gaps::axiom_vec_len_fits};
+        /// what asm::resolver::eval computes for an expression (ASSUMED: a function of the file-server state, the
+        /// options, the tables, the resolver context and the expression; evaluated with a fresh EvalContext)
+        pub uninterp spec fn eval_of(fs: &dyn util::FileServer, opts: &asm::AssemblyOptions, decls: &asm::ItemDecls, defs: &asm::ItemDefs, ctx: &asm::ResolverContext, e: &expr::Expr) -> expr::Value;
         //@@INCLUDE u_resolver/spec.rs
         //@@INCLUDE u_resolver/ifs_spec.rs
         //@@ITEMS resolver
